@@ -34,10 +34,36 @@ fn parse_content_line(
 
 fn parse_global_assignment(input: &str) -> Result<GlobalVariable, CompilerError> {
     let (name, expression) = split_assignment(input, "=")?;
+    let initial_value = parse_expression(&expression)?;
+    // As in inklecate: the initial value is evaluated while the story loads, so it has to
+    // be something that cannot fail there.
+    let is_constant = match &initial_value {
+        Expression::Variable(_)
+        | Expression::DivertTarget(_)
+        | Expression::ListItems(_)
+        | Expression::EmptyList => true,
+        Expression::Str(text) => !text.contains('{'),
+        unary => is_folded_number(unary),
+    };
+    if !is_constant {
+        return Err(CompilerError::invalid_source(
+            "initial value for a variable must be a number, constant, list or divert target"
+                .to_owned(),
+        ));
+    }
     Ok(GlobalVariable {
         name,
-        initial_value: parse_expression(&expression)?,
+        initial_value,
     })
+}
+
+/// A number or boolean, possibly under `-`, `!` or `not`, which cannot fail to evaluate.
+fn is_folded_number(expression: &Expression) -> bool {
+    match expression {
+        Expression::Bool(_) | Expression::Int(_) | Expression::Float(_) => true,
+        Expression::Negate(inner) | Expression::Not(inner) => is_folded_number(inner),
+        _ => false,
+    }
 }
 
 /// Parse `name = item1, (item2), item3, ...` into a ListDeclaration.
